@@ -159,6 +159,15 @@ def infeasible_items(tier):
               "teams": [{"name": "TM0", "targets": [0, 1], "workers": [{"name": "W0", "skills": {"T0": 1.0, "T1": 1.0}, "fskills": dict(fsk), "solo": True, "cost": 1.0}]}]}
         for mt in (5, 12):
             out.append((sp, {"rule": "TSLACK", "max_time": mt}))
+    # one component with two sequential machine tasks: the first task's workplace has a machine skilled for the second task but is not assigned to it,
+    # and the workplace that is assigned to it has no machine for it: nobody may ever serve the second task
+    for sk2 in ({}, {"paint": 0.0}):
+        sp = {"tasks": [{"name": "weld", "work": 2.0, "nf": True}, {"name": "paint", "work": 2.0, "nf": True}], "links": [[0, 1, "FS"]], "components": [{"name": "C0", "tasks": [0, 1]}],
+              "workplaces": [{"name": "WP1", "cap": 1.0, "targets": [0], "facilities": [{"name": "f1", "skills": {"weld": 1.0, "paint": 1.0}}]},
+                             {"name": "WP2", "cap": 1.0, "targets": [1], "facilities": [{"name": "f2", "skills": dict(sk2)}]}],
+              "teams": [{"name": "TM0", "targets": [0, 1], "workers": [{"name": "W0", "skills": {"weld": 1.0, "paint": 1.0}, "fskills": {"f1": 1.0, "f2": 1.0}, "cost": 1.0}]}]}
+        for mt in (12, 30):
+            out.append((sp, {"rule": "TSLACK", "max_time": mt}))
     # workers built without the skill keyword and filled in place: the unskilled one must not inherit anything
     for links in ([], [[0, 1, "FS"]]):
         sp = {"tasks": [{"name": "T0", "work": 1.0}, {"name": "T1", "work": 1.0}], "links": links,
@@ -320,6 +329,8 @@ def run(tier, seed):
           and not o.get("res_absence")]
     sc += [(sp, dict(o, max_time=o["max_time"] + 30, phases=())) for sp, o in F.large_items(("TSLACK", "SPT"))
            if not any(k in ("FF", "SF") for _, _, k in sp["links"])]  # the larger catalogue (20-30 tasks, runs of up to 160 steps); models with FF/SF links and shared workers may deadlock (precondition)
+    # other ways of building the same object graph (copy twins, value-equal and container subclasses, a project created empty and filled afterwards)
+    sc += [(sp, dict(o, max_time=o["max_time"] + 10, phases=())) for sp, o in F.usage_items(("TSLACK",)) if "parent-child:one-cap1" not in sp["label"] and not o.get("presim_back")]
     lad = F.diamond_ladder_spec(32)
     sc.append((lad, {"rule": "TSLACK", "max_time": 3 * 32 + 10, "phases": ()}))  # 97 tasks in 32 reconvergent stages (2^32 paths)
     colb.merge(stepcheck.explore(sc, [mon_feasible], 0, 0, seed=seed))  # medium-sized feasible models
